@@ -925,9 +925,6 @@ def _addr_arg(addr):
 
 
 class Checker:
-    MAX_PER_SIG = 3  # reports per signature and case (the rest is counted), so that one defect
-    # class cannot crowd other signatures out of the per-case failure list
-
     def __init__(self, ctx, t, ref, mode):
         self.ctx, self.t, self.ref, self.mode = ctx, t, ref, mode
         self.cls = input_class(t, ref)
@@ -946,12 +943,7 @@ class Checker:
         self.ctx.note("violating_lookups")
         if sig in self.term_sigs:
             return
-        self.term_sigs.add(sig)
-        counts = self.ctx.__dict__.setdefault("_c17_sig", {})
-        counts[sig] = counts.get(sig, 0) + 1
-        if counts[sig] > self.MAX_PER_SIG:
-            self.ctx.fail_count += 1
-            return
+        self.term_sigs.add(sig)  # one report per term and signature (the runner caps per signature)
         self.ctx.fail(comp, op, self.cls, symptom, dict(term=self.name, mode=self.mode, **detail))
 
     def exc(self, op, e, probe):
